@@ -906,6 +906,12 @@ func (x *Exec) applyContract(st *State, fn *ssa.Function, cts []*Contract, args 
 		}
 	}
 	x.usedModular[fn.String()] = true
+	if x.usedContracts == nil {
+		x.usedContracts = map[string]bool{}
+	}
+	for _, ct := range cts {
+		x.usedContracts[ct.label()] = true
+	}
 	// the summarised call is an event (arguments by value), so contracts can say which calls happen
 	snap := make([]Value, len(args))
 	for i, a := range args {
